@@ -36,7 +36,8 @@ def plan(tier, seed):
         cases += [{'op': k, 'leafs': [l], 'part': [0, 1]} for l in ([0], [0, 3], [2, 0], [1, 0, 2])]   # empty leaves are legal shapes
     pair_trees = [[[2, 3, 2], [2, 3, 2, 2]], [[2, 3], [2, 3, 2]], [[2, 2], [2, 2, 2]]] + ([[[3, 2, 2], [2, 2]], [[2, 1, 3], [2, 3, 1, 2]]] if tier == 'thorough' else [])
     pairs = [{'pairs': t, 'part': [p, 8]} for t in pair_trees for p in range(8)]
-    pairs += [{'pairs2': [2, 3, 4], 'part': [p, 16]} for p in range(16)]   # two-axis moves, every pairing, on one rank-3 leaf
+    pairs += [{'pairs2': [2, 3, 4], 'part': [p, 16]} for p in range(16)]
+    pairs += [{'spellings': [2, 3, 4, 2], 'k': k} for k in range(4)]   # axes given as ints / tuples / lists the caller goes on using   # two-axis moves, every pairing, on one rank-3 leaf
     return [{'name': 'grid', 'target': TARGET, 'x64': False, 'cases': cases, 'chunk': 1},
             {'name': 'pairs', 'target': TARGET, 'x64': False, 'cases': pairs, 'chunk': 1}]
 
@@ -155,6 +156,44 @@ def run(phase, cases, ctx):
             violations.append({'kind': 'library-raises', 'case': one, 'detail': f'{err}\n{err.tb}'})
 
     for case in cases:
+        if 'spellings' in case:
+            # the same two-axis move written with tuples, with lists, and with lists the caller changes afterwards: same operator;
+            # a list-spelled move next to its tuple-spelled inverse is an inverse pair like any other
+            leaf = case['spellings']
+            st = struct([leaf])
+            x = data(leaf, 3)
+            combos = [((0, 1), (2, 3)), ((1, 0), (2, 3)), ((0, 3), (1, 0)), ((-1, 0), (0, -1))]
+            src, dst = combos[case['k']]
+            try:
+                ref_op = MoveAxisOperator(src, dst, in_structure=st)
+                want = np.moveaxis(x, src, dst)
+                ls, ld = list(src), list(dst)
+                op = MoveAxisOperator(ls, ld, in_structure=st)
+                T_before = op.T
+                y1 = np.asarray(op.mv(jnp.asarray(x)))
+                ls.reverse()
+                ld[0] = ld[-1]
+                y2 = np.asarray(op.mv(jnp.asarray(x)))
+                back = np.asarray(T_before.mv(jnp.asarray(want)))
+                if not (y1.shape == want.shape and np.array_equal(y1, want) and y2.shape == want.shape and np.array_equal(y2, want) and np.array_equal(back, x)):
+                    violations.append({'kind': 'depends-on-the-callers-list', 'case': case,
+                                       'detail': f'MoveAxis({list(src)}, {list(dst)}) built from lists: result before the lists changed has shape {y1.shape}, afterwards {y2.shape}, numpy {want.shape}; op.T taken earlier inverts: {np.array_equal(back, x)}'})
+                for a_args, b_args in (((list(dst), list(src)), (src, dst)), ((dst, src), (list(src), list(dst))), ((list(dst), list(src)), (list(src), list(dst)))):
+                    B = MoveAxisOperator(*b_args, in_structure=st)
+                    A = MoveAxisOperator(*a_args, in_structure=B.out_structure())
+                    red = CompositionOperator([A, B]).reduce()
+                    counters['pair_products'] += 1
+                    if not isinstance(red, IdentityOperator):
+                        violations.append({'kind': 'inverse-pair-not-collapsed', 'case': case,
+                                           'detail': f'MoveAxis{a_args} @ MoveAxis{b_args} (mutually inverse, one spelled with lists) reduces to {type(red).__name__}; the tuple-spelled pair reduces to '
+                                                     f'{type(CompositionOperator([MoveAxisOperator(dst, src, in_structure=ref_op.out_structure()), ref_op]).reduce()).__name__}'})
+                    else:
+                        counters['pair_products_collapsed'] += 1
+                nontrivial.add(json.dumps(case))
+            except Exception as e:  # noqa: BLE001
+                err = P.LibError('moveaxis spellings', e)
+                violations.append({'kind': 'library-raises', 'case': case, 'detail': f'{err}\n{err.tb}'})
+            continue
         if 'pairs2' in case:
             leaf = case['pairs2']
             st = struct([leaf])
